@@ -21,6 +21,12 @@ def wrapper_configs(adapter: Any, tier: str) -> List[Dict[str, Any]]:
         win = dict([c for c in cfgs if c["id"] == "r4c3"][0])
         win["id"], win["drive"] = "r4c3+win", True
         extra.append(win)
+    if adapter.name == "RobotWarehouse":
+        # a small warehouse in which the clients work (fetch - deliver - put back), for many steps: deliveries, i.e. steps that
+        # draw from the state's key, happen inside batches and scans and at different times in different batch elements
+        work = dict([c for c in cfgs if c["id"] == "s1c3h3a3r1q4"][0])  # more shelves than queue slots: the new request is a real draw
+        work["id"], work["drive"], work["drive_segments"] = work["id"] + "+work", True, (50, 90)
+        extra.append(work)
     if tier == "quick":
         # one configuration in which episodes end often: tiny time limit, else the small quick config; plus, for the
         # multi-agent environments, a single-agent configuration (state leaves with an axis of size one next to the batch axis)
